@@ -374,6 +374,116 @@ def check_clauses(ctx, case, res, rng, exact, tol, tag):
 
 
 # ----------------------------------------------------------------------------
+# object / instance history: the value must depend on the arguments only
+# ----------------------------------------------------------------------------
+LONG_LIVED = {}          # (nobjs, minimum, maximum) -> one Hypervolume instance re-used across cases with different directions
+REUSE = {"sequences": 0, "long_lived_calls": 0}
+
+
+def deep_state(sols):
+    return [(id(s), list(s.objectives), list(s.constraints), list(s.variables), s.constraint_violation, s.feasible, s.evaluated) for s in sols]
+
+
+def set_directions_in_place(p, dirs):
+    from platypus import Direction
+    p.directions[:] = [Direction.MAXIMIZE if d else Direction.MINIMIZE for d in dirs]
+
+
+def long_lived_result(case):
+    """the same case through ONE Hypervolume(minimum, maximum) instance that earlier cases (other problems, other direction
+    vectors) already used"""
+    from platypus import Hypervolume
+    b = case["bounds"]
+    key = (case["nobjs"], tuple(b[1]), tuple(b[2]))
+    try:
+        with time_limit(CALL_TIMEOUT):
+            if key not in LONG_LIVED:
+                LONG_LIVED[key] = Hypervolume(minimum=list(b[1]), maximum=list(b[2]))
+            p, ref, st = build_objects(case)
+            REUSE["long_lived_calls"] += 1
+            return ("ok", LONG_LIVED[key].calculate(st))
+    except CallTimeout:
+        State.timeouts += 1
+        return ("timeout",)
+    except Exception as e:  # noqa
+        return ("err", ERRMAP.get(type(e).__name__, "other:" + type(e).__name__), "%s: %s" % (type(e).__name__, e))
+
+
+def check_reuse(ctx, case, res, rng, exact, tol, tag):
+    """calculate called repeatedly on the SAME Solution objects with the SAME indicator instance: same set twice, a permutation,
+    a superset, the set again, the problem's directions re-declared in place; calculate must not modify the solutions"""
+    from platypus import Hypervolume
+    if res[0] != "ok" or State.timeouts >= MAX_TIMEOUTS:
+        return
+    b0 = oracle_bounds(case)
+    if b0 is None or oracle_points(case, b0) is None:
+        return      # bounds the constructor / normalize rejects as soon as a feasible member is present
+    rp = {"kind": "reuse", "case": case_json(case), "tol": tol}
+
+    def viol(key, what):
+        ctx.violation(key, "%s %s; case %r" % (tag, what, case_show(case)), rp)
+
+    def differs(a, b):
+        return (a != b) if exact else abs(a - b) > tol
+    try:
+        with time_limit(4 * CALL_TIMEOUT):
+            p, ref, st = build_objects(case)
+            hv = Hypervolume(reference_set=ref) if ref is not None else Hypervolume(minimum=list(case["bounds"][1]), maximum=list(case["bounds"][2]))
+            everyone = list({id(s): s for s in (ref or []) + st}.values())
+            before = deep_state(everyone)
+            v1 = hv.calculate(st)
+            if deep_state(everyone) != before:
+                viol("hypervolume:calculate-modifies-solutions", "Hypervolume.calculate changed objectives/constraints/variables of its arguments: %r -> %r" % (
+                    [b[1] for b in before], [b[1] for b in deep_state(everyone)]))
+                return
+            if differs(v1, res[1]):
+                viol("hypervolume:changes-on-re-evaluation", "fresh objects give %r, other fresh objects give %r" % (res[1], v1))
+            v2 = hv.calculate(st)
+            if differs(v2, v1):
+                viol("hypervolume:changes-on-re-evaluation", "the same call on the same objects: %r then %r" % (v1, v2))
+            sh = st[:]
+            rng.shuffle(sh)
+            v3 = hv.calculate(sh)
+            if differs(v3, v1):
+                viol("hypervolume:changes-on-re-evaluation", "same objects reordered after a first call: %r then %r" % (v1, v3))
+            bnds = oracle_bounds(case)
+            if bnds is not None:
+                extra = plat.mk_solution(p, [float(lo) + float(hi - lo) * rng.choice([0.0, 0.25, 0.5, 1.0]) for lo, hi in zip(*bnds)], 0.0)
+                v4 = hv.calculate(st + [extra])
+                if v4 < v1 - (0 if exact else tol):
+                    viol("hypervolume:changes-on-re-evaluation", "same objects plus one more after earlier calls: %r then %r (decreases)" % (v1, v4))
+            v5 = Hypervolume(reference_set=ref).calculate(st) if ref is not None else Hypervolume(minimum=list(case["bounds"][1]), maximum=list(case["bounds"][2])).calculate(st)
+            if differs(v5, v1):
+                viol("hypervolume:changes-on-re-evaluation", "a fresh indicator on objects measured before: %r, first measurement %r" % (v5, v1))
+            if deep_state(everyone) != before:
+                viol("hypervolume:calculate-modifies-solutions", "after repeated calls the solutions differ from their initial state")
+                return
+            # re-declare the directions in place on the same Problem; same indicator instance, same objects
+            if case["bounds"][0] == "mm" and st:
+                dirs2 = [rng.random() < 0.5 for _ in case["dirs"]]
+                if dirs2 == list(case["dirs"]):
+                    dirs2[rng.randrange(len(dirs2))] ^= True
+                set_directions_in_place(p, dirs2)
+                v6 = hv.calculate(st)
+                c2 = dict(case)
+                c2["dirs"] = dirs2
+                pts = oracle_points(c2, bnds)
+                if pts is not None:
+                    want = union_volume(pts)
+                    if (exact and Fraction(v6) != want) or (not exact and abs(v6 - float(want)) > tol):
+                        ctx.violation("hypervolume:depends-on-indicator-history",
+                                      "%s the same Hypervolume instance after problem.directions[:] = %r (was %r) returns %r, the dominated volume is %s; case %r" % (
+                                          tag, dirs2, case["dirs"], v6, want, case_show(case)), dict(rp, dirs2=dirs2))
+            ctx.count(7)
+            REUSE["sequences"] += 1
+    except CallTimeout:
+        State.timeouts += 1
+        viol("hypervolume:does-not-terminate", "repeated calls on the same objects did not return")
+    except Exception as e:  # noqa
+        viol("hypervolume:raises", "repeated calls on the same objects raised %s: %s" % (type(e).__name__, e))
+
+
+# ----------------------------------------------------------------------------
 # generators
 # ----------------------------------------------------------------------------
 BOUNDS = [(0.0, 1.0), (0.0, 2.0), (-1.0, 1.0), (0.0, 4.0), (1.0, 2.0), (-2.0, 2.0), (0.0, 0.5)]
@@ -521,6 +631,9 @@ def run(ctx):
             "with_repeated_object": 0, "with_duplicate": 0, "with_infeasible": 0, "with_point_beyond_bounds": 0, "with_coordinate_tie": 0,
             "direction_vectors": set()}
     lits, kept, inexact, skipped = [], [], 0, 0
+    lits_ll, kept_ll = [], []
+    LONG_LIVED.clear()
+    REUSE["sequences"] = REUSE["long_lived_calls"] = 0
     for case in cases:
         bounds = oracle_bounds(case)
         if bounds is not None and not exactness(case, bounds):
@@ -553,6 +666,17 @@ def run(ctx):
             lits.append(case_lit(case, res))
             kept.append(case)
         check_clauses(ctx, case, res, rng, True, 0, "[dyadic grid, exact]")
+        check_reuse(ctx, case, res, rng, True, 0, "[dyadic grid, exact]")
+        if case["bounds"][0] == "mm" and res[0] in ("ok", "err"):
+            r2 = long_lived_result(case)
+            ctx.count()
+            if r2[0] in ("ok", "err") and not (r2[0] == "err" and r2[1].startswith("other:")):
+                lits_ll.append(case_lit(case, r2))
+                kept_ll.append(case)
+            if r2[:2] != res[:2]:
+                ctx.violation("hypervolume:depends-on-indicator-history",
+                              "a Hypervolume(minimum, maximum) instance already used for other problems / direction vectors returns %r, a fresh instance %r; case %r" % (
+                                  r2[1:], res[1:], case_show(case)), {"kind": "case", "case": case_json(case), "tol": 0})
     dist["direction_vectors"] = len(dist["direction_vectors"])
     dist["discarded_inexact"] = inexact
     dist["skipped_after_timeouts"] = skipped
@@ -570,9 +694,12 @@ def run(ctx):
         res = run_impl(case)
         ctx.count()
         check_clauses(ctx, case, res, rng, False, 1e-9, "[arbitrary floats, tolerance 1e-9]")
+        check_reuse(ctx, case, res, rng, False, 1e-9, "[arbitrary floats, tolerance 1e-9]")
     dist["arbitrary_float_cases(oracle only, tolerance 1e-9)"] = nfl
     ctx.coverage["input_distribution"] = dist
     ctx.coverage["timeouts"] = State.timeouts
+    ctx.coverage["re_evaluation_sequences(same objects and indicator: twice, permuted, superset, fresh indicator, directions re-declared in place)"] = REUSE["sequences"]
+    ctx.coverage["calls_through_long_lived_indicator_instances"] = REUSE["long_lived_calls"]
     ctx.rule = ("function cases on dyadic grids (coordinates k/8 or k/4, bounds [0,1],[0,2],[-1,1],[0,4],[1,2],[-2,2],[0,.5] or a reference set spanning them): "
                 "2-5 objectives x every direction vector, 0-%d listed solutions with duplicates, single-coordinate ties, values on and beyond both bounds, infeasible members, "
                 "the same object listed twice, reference objects listed in the set, rejected bounds; a case is kept only if every float operation is exact "
@@ -593,6 +720,11 @@ def run(ctx):
                 for j in range(len(kept[i]["set"])):
                     c2 = with_set(kept[i], kept[i]["set"][:j] + kept[i]["set"][j + 1:])
                     check_clauses(ctx, c2, run_impl(c2), rng, True, 0, "[neighbourhood of a model/implementation disagreement]")
+        if lits_ll:
+            bad3 = C.run_coq_cases(ctx, "reused", imports, "c15case", "c15_check", lits_ll, shard=ctx.scale(150, 300))
+            if bad3 is not None:
+                ctx.obligation("correspondence:hv_indicator=result of a long-lived Hypervolume instance re-used across problems (%d cases)" % len(lits_ll), "correspondence", not bad3,
+                               "model and re-used indicator instance differ on cases %r; first: %s" % (bad3[:10], lits_ll[bad3[0]] if bad3 else ""))
         bad2 = C.run_coq_cases(ctx, "spec", imports, "c15case", "c15_spec_check", lits, shard=ctx.scale(150, 300))
         if bad2 is not None:
             ctx.obligation("test:hv_model=hv_spec evaluated on every correspondence case (%d cases)" % len(lits), "test", not bad2,
@@ -603,7 +735,15 @@ def run(ctx):
 
 def replay(ctx, data):
     rp = data.get("replay", {})
-    if rp.get("kind") == "case":
+    if rp.get("kind") == "reuse":
+        import random
+        State.timeouts = 0
+        case = case_from_json(rp["case"])
+        res = run_impl(case)
+        ctx.sample({"replayed": case_show(case), "result": repr(res)})
+        for seed in range(8):
+            check_reuse(ctx, case, res, random.Random(seed), rp.get("tol", 0) == 0, rp.get("tol", 0), "[replay]")
+    elif rp.get("kind") == "case":
         State.timeouts = 0
         tol = rp.get("tol", 0)
         for j in [rp["case"]] + ([rp["variant"]] if rp.get("variant") else []):
